@@ -96,9 +96,10 @@ struct Outcome {
   yaep_verif_info hook;
   yaep_tree_node *rootptr = nullptr; // valid only when the tree was not freed
   int epoch = 0;
-  bool exploded() const { return hook.rec_explosion || hook.alt_explosion; }
+  bool capped = false; // YAEP_NO_MEMORY because the harness's cap on live library memory (1 GB) refused a request
+  bool exploded() const { return hook.rec_explosion || hook.alt_explosion || capped; }
   // label under which a case that hit one of the harness limits is counted as excluded
-  std::string explosionLabel() const { return hook.alt_explosion ? "excluded:KF-all-parses-translation-explosion" : "excluded:F27-recovery-explosion"; }
+  std::string explosionLabel() const { return hook.alt_explosion ? "excluded:KF-all-parses-translation-explosion" : hook.rec_explosion ? "excluded:F27-recovery-explosion" : "excluded:memory-cap"; }
   std::string str() const;
   // the tuple the properties C09/C14/C16 compare
   std::string tupleStr() const;
